@@ -91,7 +91,7 @@ LEVEL_NOTE = ('Trusted: the function table and the canonical spelling.  Not '
 NUM_VALUES = (0, 1, 2, 0.5, -3)
 NUM_VALUES_MORE = (10, 1.5, 100, -1, 1000)
 TEXT_VALUES = ('ab', '1', '', '0.5', 'TRUE')
-TEXT_VALUES_MORE = ('-3', 'FALSE', '12')
+TEXT_VALUES_MORE = ('-3', 'FALSE', '12', '1500000')   # 7 digits: no exponent form
 DATE_VALUES = ((2020, 1, 1), (2021, 1, 1))
 DATE_VALUES_MORE = ((2020, 2, 15), (1999, 12, 31))
 DIGIT_VALUES = ('101', '11')
@@ -528,6 +528,7 @@ OP_CALL = (
     ['int', 2], ['float', 0.5], ['float', 2.0], ['Number', 3], ['npint', 4],
     ['str', '3'], ['Text', '1.5'], ['str', '2E+0'], ['bool', True],
     ['Boolean', False], ['None'], ['BLANK'], ['str', 'abc'],
+    ['float', 1500000.0],
 )
 OP_FORMULA = (
     (['int', 2], 'lit'), (['float', 0.5], 'lit'), (['float', 2.0], 'cell'),
@@ -535,6 +536,7 @@ OP_FORMULA = (
     (['str', '1.5'], 'cell'), (['str', '2E+0'], 'lit'),
     (['bool', True], 'lit'), (['bool', False], 'cell'), (['None'], 'cell'),
     (['str', ''], 'cell'), (['str', 'abc'], 'lit'),
+    (['float', 1500000.0], 'cell'),
 )
 OPS = ('OP_ADD', 'OP_SUB', 'OP_MUL', 'OP_DIV', 'CONCAT', 'OP_NEG',
        'OP_PERCENT')
